@@ -348,7 +348,7 @@ def defects(rnd, rows):
     yield "field-before-format", [rows[f_idx[0]]] + rows, 0
     yield "unknown-row-marker", rows[:1] + [["X", "y"]] + rows[1:], 1
     for i in f_idx:
-        for bad in ("", "1abc", "a-b", "a b", "class", "größe", "_x", "a.b", "None"):
+        for bad in ("", "1abc", "a-b", "a b", "class", "größe", "_x", "a.b", "None", " class", "if ", "\tlambda ", " 1abc "):
             yield "field-name:%s" % bad, mod(i, 1, bad), i
         if i != f_idx[0]:
             yield "duplicate-field-name", mod(i, 1, rows[f_idx[0]][1]), i
